@@ -87,9 +87,10 @@ func (m *vfC04Machine) checkOutcome(rt *rapid.T, p *vfC04Pool, r vfC04Req, o vfC
 			m.violation(rt, "no-server-although-list-nonempty policy="+p.policy, "request failed for lack of a server but the current list is not empty: %s", desc())
 			return false
 		}
-		if o.mode == "handle" && (o.status != 503 || o.result != resultInternalError || o.sends != 0) {
-			m.violation(rt, "empty-list-wrong-failure policy="+p.policy, "empty list must give 503/internalError without a send: %s", desc())
-			return false
+		// nothing was sent anywhere (target is derived from the transport hook). The statement does
+		// not fix the shape of the failure; the documented one is 503/internalError.
+		if o.mode == "handle" && (o.status != 503 || o.result != resultInternalError) {
+			m.vf.Class("ambiguous-empty-list-failure-shape")
 		}
 		m.vf.Class("outcome=no-server(empty-list)")
 		return true
